@@ -118,12 +118,13 @@ class Scratch:
         return e
 
     # -- running ------------------------------------------------------------
-    def loop_ids(self, crate, harnesses, probes):
+    def loop_ids(self, crate, harnesses, probes, target=None):
         """Compile only, then list the CBMC loop ids of the probe harnesses'
         goto binaries: [(loop id, pretty function name)].  Used to turn
         per-function unwind rules into --unwindset entries (the ids embed crate
         hashes and monomorphisation, so they are discovered on every run)."""
-        cmd = ["cargo", "kani", "-p", crate, "--target-dir", self.target, "--only-codegen",
+        target = target or self.target
+        cmd = ["cargo", "kani", "-p", crate, "--target-dir", target, "--only-codegen",
                "-Z", "unstable-options", "-Z", "stubbing", "--exact"]
         for h in harnesses:
             cmd += ["--harness", h]
@@ -132,7 +133,8 @@ class Scratch:
                            stdout=subprocess.PIPE, stderr=subprocess.STDOUT, text=True)
         self.last_output = p.stdout
         if p.returncode != 0:
-            open(os.path.join(self.root, "last_kani.log"), "w").write(p.stdout)
+            open(os.path.join(self.root, "last_kani.%s.log" % os.path.basename(target)), "w").write(p.stdout)
+            self.last_output = p.stdout
             return None
         import glob
         out = {}
@@ -140,7 +142,7 @@ class Scratch:
         out["memcmp.0"] = "memcmp"
         for h in probes:
             leaf = h.split("::")[-1]
-            pat = os.path.join(self.target, "kani", "*", "debug", "build", "*", "*", "out",
+            pat = os.path.join(target, "kani", "*", "debug", "build", "*", "*", "out",
                                "*%d%s.out" % (len(leaf), leaf))
             files = sorted(glob.glob(pat), key=os.path.getmtime)
             if not files:
@@ -170,17 +172,22 @@ class Scratch:
         return ",".join(parts), used
 
     def run(self, crate, harnesses, jobs=8, harness_timeout=300, extra_args=(), mem_gb=7, exact=True,
-            unwind_rules=None, probes=None):
+            unwind_rules=None, probes=None, target=None, meta=None):
         """Run the given harnesses (full names) of one crate in one cargo-kani
         invocation.  Returns {harness: HarnessResult}."""
         res = {h: HarnessResult(h) for h in harnesses}
         if not harnesses:
             return res
+        target = target or self.target
+        if meta is None:
+            meta = {}
+        meta["cbmc_args"] = []
+        meta["unwindset"] = []
         self.last_unwindset = []
         self.last_cbmc_args = []
         cbmc_args = []
         if unwind_rules:
-            loops = self.loop_ids(crate, harnesses, probes or harnesses[:1])
+            loops = self.loop_ids(crate, harnesses, probes or harnesses[:1], target=target)
             if loops is None:
                 errs = "\n".join(l for l in self.last_output.splitlines() if "error" in l)[:2000]
                 for r in res.values():
@@ -188,11 +195,13 @@ class Scratch:
                 return res
             uws, used = self.unwindset(loops, unwind_rules)
             self.last_unwindset = used
+            meta["unwindset"] = used
             if uws:
                 cbmc_args = ["--cbmc-args", "--unwindset", uws]
                 self.last_cbmc_args = cbmc_args
-        out_json = os.path.join(self.root, "out.%d.json" % int(time.time() * 1000))
-        cmd = ["cargo", "kani", "-p", crate, "--target-dir", self.target,
+                meta["cbmc_args"] = cbmc_args
+        out_json = os.path.join(self.root, "out.%s.%d.json" % (os.path.basename(target), int(time.time() * 1000)))
+        cmd = ["cargo", "kani", "-p", crate, "--target-dir", target,
                "-Z", "unstable-options", "-Z", "stubbing",
                "--harness-timeout", "%ds" % harness_timeout,
                "--export-json", out_json,
@@ -219,7 +228,7 @@ class Scratch:
                            stdout=subprocess.PIPE, stderr=subprocess.STDOUT, text=True)
         wall = time.time() - t0
         self.last_output = p.stdout
-        open(os.path.join(self.root, "last_kani.log"), "w").write(p.stdout)
+        open(os.path.join(self.root, "last_kani.%s.log" % os.path.basename(target)), "w").write(p.stdout)
         if p.returncode == 124:
             for r in res.values():
                 r.reason = "cargo-kani invocation timed out after %ds" % overall
